@@ -1322,8 +1322,10 @@ class Interp(object):
             track_key = "#track:" + seq.name
             outer = (st.ghost.get(cnt_key), st.ghost.get(track_key))
             st.ghost[cnt_key] = 0
-            st.ghost[track_key] = tuple(sorted((name, "eq") for name, val in st.frames[-1].items()
-                                               if isinstance(val, int) and not isinstance(val, bool) and val == 0)) \
+            # counters (locals that are 0 at loop entry) of this frame and - when a consumer drives this generator - of the frames below
+            st.ghost[track_key] = tuple(sorted(((di, name), "eq") for di, fr in enumerate(st.frames) for name, val in fr.items()
+                                               if isinstance(val, int) and not isinstance(val, bool) and val == 0
+                                               and (di == len(st.frames) - 1 or self._yield_handlers))) \
                 if self.track_len else ()
             key = (seq.name, outer, st.key())
             if key in seen:
@@ -1351,7 +1353,7 @@ class Interp(object):
                 continue
             # (b) one more element
             base = head.fork()
-            before = {name: base.frames[-1].get(name) for (name, _) in base.ghost.get(track_key, ())}
+            before = {dn: base.frames[dn[0]].get(dn[1]) for (dn, _) in base.ghost.get(track_key, ()) if dn[0] < len(base.frames)}
             if self.track_len:
                 base.ghost["#inc"] = ()
             if itref is not None and not base.obj(itref).fields.get("@started"):
@@ -1369,15 +1371,17 @@ class Interp(object):
                         if k2 in ("next", "continue"):
                             tr = []
                             incd = s2.ghost.pop("#inc", ())
-                            for (name, rel) in s2.ghost.get(track_key, ()):
-                                b, a = before.get(name), s2.frames[-1].get(name)
+                            for (dn, rel) in s2.ghost.get(track_key, ()):
+                                if dn[0] >= len(s2.frames):
+                                    continue
+                                b, a = before.get(dn), s2.frames[dn[0]].get(dn[1])
                                 inc = _is_inc(b, a)
                                 if inc is None and b is GE2 and a is GE2:
-                                    inc = 1 if incd.count(name) == 1 else (0 if incd.count(name) == 0 else None)
+                                    inc = 1 if incd.count(dn[1]) == 1 else (0 if incd.count(dn[1]) == 0 else None)
                                 if inc == 1:
-                                    tr.append((name, rel))
+                                    tr.append((dn, rel))
                                 elif inc == 0:
-                                    tr.append((name, "lt"))
+                                    tr.append((dn, "lt"))
                             s2.ghost[track_key] = tuple(tr)
                             if self.at_loop_head is not None:
                                 self.at_loop_head(self, s2, node, seq)
@@ -1404,7 +1408,10 @@ class Interp(object):
             if itref is not None:
                 ex.wobj(itref).fields["@done"] = True       # the iterator is exhausted for every later consumer
             if self.track_len:
-                ex.ghost["#len:" + seq.name] = ex.ghost.get(track_key, ())
+                byname = {}
+                for (dn, rel) in ex.ghost.get(track_key, ()):
+                    byname[dn[1]] = rel if byname.get(dn[1], rel) == rel else None      # two frames, one name, different facts: no fact
+                ex.ghost["#len:" + seq.name] = tuple(sorted((n_, r_) for n_, r_ in byname.items() if r_ is not None))
             if (self.track_len or self.same_seq_same_length) and full:
                 ex.ghost["#n:" + seq.name] = ex.ghost.get(cnt_key, 0)
             _restore(ex, cnt_key, outer[0], track_key, outer[1])
